@@ -72,6 +72,14 @@ type Case struct {
 	RedirectPath   string   `json:"redirect_path"`
 	CustomHandlers bool     `json:"custom_handlers"` // application installs its own unauthorized / error handlers
 	Ops            []Op     `json:"ops"`
+	Conc           *Conc    `json:"conc,omitempty"` // set: concurrent-login case (TestConcurrentLogins), Ops unused
+}
+
+// Conc describes a concurrent-login case: len(Logins) goroutines (each its own browser) are released by a barrier and perform
+// Logins[g] logins each through ONE shared rp.AuthURLHandler built with the URL parameter options Params.
+type Conc struct {
+	Params []string `json:"params"` // custom | prompt | locales | mode
+	Logins []int    `json:"logins"`
 }
 
 const (
@@ -570,12 +578,16 @@ func run(c Case) (res *vkit.Result) {
 	}
 	w.rp = relying
 
-	for i := range c.Ops {
-		switch c.Ops[i].Kind {
-		case "login":
-			w.login(i, c.Ops[i])
-		case "callback":
-			w.callback(i, c.Ops[i])
+	if c.Conc != nil {
+		w.runConc(c.Conc)
+	} else {
+		for i := range c.Ops {
+			switch c.Ops[i].Kind {
+			case "login":
+				w.login(i, c.Ops[i])
+			case "callback":
+				w.callback(i, c.Ops[i])
+			}
 		}
 	}
 
@@ -638,6 +650,14 @@ func (w *world) login(i int, o Op) {
 	}
 	w.hits = handlerHits{}
 	resp := vkit.Serve(h, nil, req)
+	w.judgeLogin(i, idx, a, issued, resp, j)
+}
+
+// judgeLogin: the browser (jar j) receives the RP's answer to a login request; the oracle looks at the cookies and the
+// authorization URL, then the browser follows the redirect to the provider and logs in there.
+func (w *world) judgeLogin(i, idx int, a *attempt, issued []string, resp *vkit.Resp, j *jar) {
+	res := w.res
+	state := a.state
 	if resp.Panic != nil {
 		res.Fail("C17:panic@"+resp.PanicFrame(), "AuthURLHandler panicked: %v", resp.Panic)
 		return
@@ -749,7 +769,7 @@ func (w *world) login(i int, o Op) {
 	}
 	a.code = dp.Get("code")
 	a.ok = true
-	w.note("login#%d browser=%d state=%q verifier=%q", idx, o.Browser, clip(state), a.verifier)
+	w.note("login#%d browser=%d state=%q verifier=%q", idx, a.browser, clip(state), a.verifier)
 }
 
 func contains(l []string, s string) bool {
